@@ -11,6 +11,11 @@ CfgC11 == {Cf(TRUE, TRUE, "ca", "password")}
 CfgC11b == {Cf(TRUE, sm, "ca", "password") : sm \in BOOLEAN}
 CfgC14 == {Cf(TRUE, FALSE, "ca", c) : c \in {"password", "token"}}
 CfgC04multi == {Cf(FALSE, FALSE, "ca", "password"), Cf(FALSE, TRUE, "ca", "password")}
+\* WebSocket transport: ws: (clear) and wss: (TLS from the dial on), insecure allowed or not
+CfW(i, sm, wss) == [insecure |-> i, sm |-> sm, tls |-> "none", cred |-> "password", ws |-> TRUE, wss |-> wss, skiptls |-> FALSE, sessalways |-> FALSE]
+CfgC04ws == {CfW(i, FALSE, s) : i \in BOOLEAN, s \in BOOLEAN}
+CfgC03ws == {CfW(TRUE, sm, FALSE) : sm \in BOOLEAN} \cup {CfW(FALSE, TRUE, TRUE)}
+CfgC11ws == {CfW(TRUE, TRUE, FALSE)}
 P == <<"PLAIN">>
 MechPlain == {P}
 MechAll == {<<>>, <<"PLAIN">>, <<"X-OAUTH2">>, <<"SCRAM-SHA-1">>, <<"PLAIN", "X-OAUTH2">>, <<"X-OAUTH2", "PLAIN">>, <<"SCRAM-SHA-1", "PLAIN">>,
